@@ -2,7 +2,22 @@
 open Model
 open Sx
 let gs_str cs = Q (String.of_seq (List.to_seq cs))
-let gs_zs z = Q (String.of_seq (List.to_seq (print_Z z)))          (* integers as decimal strings: no overflow *)
+(* integers as decimal strings of any size (double-and-add on a decimal digit array, most significant bit first) *)
+let gs_pos_bits p = let rec go p acc = match p with XH -> true :: acc | XO q -> go q (false :: acc) | XI q -> go q (true :: acc) in go p []
+let gs_pos_dec p =
+  let bits = gs_pos_bits p in
+  let n = (List.length bits * 31) / 100 + 2 in
+  let d = Array.make n 0 in
+  List.iter (fun b ->
+      let carry = ref (if b then 1 else 0) in
+      for i = 0 to n - 1 do
+        let v = 2 * d.(i) + !carry in
+        if v >= 10 then (d.(i) <- v - 10; carry := 1) else (d.(i) <- v; carry := 0)
+      done) bits;
+  let top = ref (n - 1) in
+  while !top > 0 && d.(!top) = 0 do decr top done;
+  String.init (!top + 1) (fun i -> Char.chr (48 + d.(!top - i)))
+let gs_zs z = Q (match z with Z0 -> "0" | Zpos p -> gs_pos_dec p | Zneg p -> "-" ^ gs_pos_dec p)
 let gs_gtype = function
   | A "simple" | Q "simple" -> GSSimple | A "bipartite" | Q "bipartite" -> GSBipartite
   | A "dag" | Q "dag" -> GSDag | A "digraph" | Q "digraph" -> GSDigraph
